@@ -120,7 +120,11 @@ FieldRangesOK(t) ==
   /\ t.d = X \/ (/\ t.d \in 1..31
                  /\ t.m # X => t.d <= DIMAny(t.m)
                  /\ (t.m # X /\ t.y # X) => t.d <= DIM(t.y, t.m))
-WellFormedTime(t) == FieldRangesOK(t) /\ StartOf(t) # ERR /\ EndOf(t) # ERR
+\* the first and the last moment a value stands for are real clock times too (a part of day whose table entry ends at
+\* hour 24 prints fine, but its .end is "24:59" and .end.dt raises)
+EndsReal(t) == LET s == StartOf(t)  e == EndOf(t) IN
+  s # ERR /\ e # ERR /\ s.H \in 0..23 /\ s.M \in 0..59 /\ e.H \in 0..23 /\ e.M \in 0..59
+WellFormedTime(t) == FieldRangesOK(t) /\ EndsReal(t)
 FullyDated(t) == t.y # X /\ t.m # X /\ t.d # X
 WellFormed(v) ==
   CASE IsTime(v) -> WellFormedTime(v)
